@@ -45,9 +45,9 @@ func c03Scenarios(c *vlib.Ctx) []c03Scenario {
 			}
 		}
 	}
-	instants := []string{"transition", "grace", "sibling"}
+	instants := []string{"transition", "grace", "sibling", "after-reconnect", "mixed"}
 	r := c.SubRand(303)
-	n := 10
+	n := 15
 	if c.Tier == "thorough" {
 		n = 0
 		for _, st := range []string{"CONFIGURED", "RUNNING"} {
@@ -63,11 +63,17 @@ func c03Scenarios(c *vlib.Ctx) []c03Scenario {
 		}
 	}
 	for i := 0; i < n; i++ {
-		out = append(out, c03Scenario{State: []string{"CONFIGURED", "RUNNING"}[r.Intn(2)], Critical: r.Intn(3) > 0, Kind: c03Kinds[r.Intn(len(c03Kinds))], Instant: instants[i%3], Delay: r.Intn(2) == 0})
+		out = append(out, c03Scenario{State: []string{"CONFIGURED", "RUNNING"}[r.Intn(2)], Critical: r.Intn(3) > 0, Kind: c03Kinds[r.Intn(len(c03Kinds))], Instant: instants[i%len(instants)], Delay: r.Intn(2) == 0})
 	}
 	for i := range out {
 		sc := &out[i]
 		basic := sc.Kind == "basic-terminated"
+		if sc.Instant == "mixed" {
+			// a lasting disagreement BEFORE the victim in child order: t0 finishes first, the victim is t1
+			sc.Critical = true
+			sc.Victim = "t1"
+			continue
+		}
 		switch {
 		case sc.Critical && basic:
 			sc.Victim = "t1"
@@ -241,6 +247,39 @@ func c03Run(c *vlib.Ctx, idx int, sc c03Scenario) {
 			s.Master.TaskStatus(otherCrit.ID, "TASK_FAILED", "first fault (scripted)")
 			time.Sleep(100 * time.Millisecond)
 		}
+	case "after-reconnect":
+		// the event stream is dropped and re-established (the core reconciles: master-generated
+		// TASK_RUNNING updates without executor id for every task), then the fault hits
+		life0 := s.Master.Life()
+		s.Master.DropStream()
+		dl := time.Now().Add(60 * time.Second)
+		for time.Now().Before(dl) && (s.Master.Life() == life0 || !s.Master.Subscribed()) {
+			time.Sleep(20 * time.Millisecond)
+		}
+		if s.Master.Life() == life0 {
+			c.Inconclusive("core did not resubscribe within 60 s")
+			return
+		}
+		waitQuiet(s, 300*time.Millisecond, 5*time.Second)
+		if st, _ := envState(s, envID); st != sc.State {
+			c.Inconclusive("environment left " + sc.State + " after a mere reconnection (C18's domain): " + st)
+			return
+		}
+		c.Count("faults_after_reconnect", 1)
+	case "mixed":
+		// critical t0 (listed before the victim) finishes on its own: the workflow's critical tasks
+		// now disagree (DONE vs the others) and keep disagreeing when the victim fails
+		for _, t := range s.Master.Tasks() {
+			if strings.HasSuffix(t.RolePath, ".t0") {
+				s.Master.TaskStatus(t.ID, "TASK_FINISHED", "done (scripted)")
+			}
+		}
+		time.Sleep(1500 * time.Millisecond)
+		if st, _ := envState(s, envID); st != sc.State {
+			c.Inconclusive("environment left " + sc.State + " when a critical task finished: " + st)
+			return
+		}
+		c.Count("faults_with_mixed_siblings", 1)
 	case "sibling":
 		if sibling != nil && sibling.ID != victim.ID {
 			s.Master.SetTaskState(sibling.ID, "STANDBY")
